@@ -66,6 +66,17 @@ def m_map_get(c):
     return some(TypedPtr(m, i, m.vty))
 
 
+@pattern(r'^<(HashMap|BTreeMap) as Index(<.*>)?>::index$')
+def m_map_index(c):
+    # map[key]: panics when the key is absent
+    m = as_map(c.st, c.args[0])
+    i = map_find(c.st, m, c.args[1], 'index')
+    if i is None:
+        from .exec import Panic
+        raise Panic('map index: key not found')
+    return TypedPtr(m, i, m.vty)
+
+
 @model(*_names('contains_key', MAPS), *_names('contains', SETS))
 def m_map_contains(c):
     m = as_map(c.st, c.args[0])
